@@ -182,6 +182,8 @@ func (b *binding) emitSetP() {
 		if b.isStrict || b.scope.c.scope.strict {
 			b.emitGetP() // an uninitialised binding (TDZ) is a ReferenceError, which comes first
 			b.scope.c.emit(throwAssignToConst)
+		} else {
+			b.scope.c.emit(pop) // the store is silently ignored, but the value must still be consumed
 		}
 		return
 	}
